@@ -5,7 +5,7 @@ import AbraProofs.Lemmas.HeapIso
 Model: `Abra.Heap` — per-thread heaps (address = thread id × index), `deepCopyM` following
 `Value::deep_copy_helper` after fix 0cb8741 (defect D24): a map from source address to copy, the copy
 recorded before its children are copied; `spawnCopy` = all captures of one `SpawnTask` with one map;
-`deepCopy` = one value with a fresh map.  The theorems hold for ALL values — shared and cyclic ones
+`deepCopy` = one value with a fresh map (a spawn with a single capture).  The theorems hold for ALL values — shared and cyclic ones
 included; nothing is assumed but that the copy returned (`some`), and `C08_deepcopy_total` shows it does
 return, with fuel = number of reachable source objects + 1, on every well-formed graph.
 `ReachV S v w`: the value `w` is reachable from `v` through the heaps `S`.  `mapVal? M w`: the image of `w`
@@ -115,11 +115,12 @@ theorem C08_deepcopy_disjoint (f : Nat) (H : Heaps) (t : Nat) (v v' : Val) (H' :
   obtain ⟨M, hv, iso, _, _, _⟩ := C08_deepcopy_iso f H t v v' H' hc
   exact iso_owned iso hv
 
-/-- **Every copy starts from an empty table: nothing survives from an earlier copy.**  `deepCopy` (a channel
-    read) and `spawnCopy` (a spawn) are functions of the heaps and the values alone — no table is carried from
-    one copy to the next — and with the empty table every object reachable from the result was allocated
-    during THIS copy: it did not exist before, whichever thread copies (a thread reading its own message
-    included), so a copy can never hand out an object made by an earlier copy. -/
+/-- **Every copy starts from an empty table: nothing survives from an earlier copy.**  `deepCopy` (one value)
+    and `spawnCopy` (the captures of a spawn) are functions of the heaps and the values alone — no table is
+    carried from one copy to the next (`chanReceive`, C09, is built the same way) — and with the empty table every
+    object reachable from the result was allocated during THIS copy: it did not exist before, whichever thread
+    the copy is made for (the thread that owns the source included), so a copy can never hand out an object made
+    by an earlier copy. -/
 theorem C08_deepcopy_fresh (f : Nat) (H : Heaps) (t : Nat) (v v' : Val) (H' : Heaps)
     (hc : deepCopy f H t v = some (v', H')) :
     ∀ w' x, ReachV H' v' w' → ptr? w' = some x → lookup H x = none ∧ x.tid = t := by
@@ -156,22 +157,25 @@ theorem C08_deepcopy_shares_nothing (f : Nat) (H : Heaps) (t : Nat) (v v' : Val)
   rw [(hfresh w' x hw' hx).1] at d1
   cases d1
 
-/-- the same for the captures of a spawn -/
+/-- the same for the captures of a spawn: every object reachable from any copied capture was allocated by this
+    spawn in the new thread's heap -/
 theorem C08_spawn_fresh (f : Nat) (H : Heaps) (t : Nat) (caps caps' : List Val) (H' : Heaps)
     (hc : spawnCopy f H t caps = some (caps', H')) :
-    ∀ c' ∈ caps', ∀ x, ptr? c' = some x → lookup H x = none ∧ x.tid = t := by
+    ∀ c' ∈ caps', ∀ w' x, ReachV H' c' w' → ptr? w' = some x → lookup H x = none ∧ x.tid = t := by
   obtain ⟨M, hm⟩ := spawnCopy_unpack hc
   obtain ⟨p, hl⟩ := copyListM_post H t _ (fun H1 M1 w w' H2 M2 h => deepCopyM_post H t f H1 M1 w w' H2 M2 h)
     caps H [] caps' H' M hm
-  intro c' hc' x hx
+  have iso := iso_of_post p
+  intro c' hc' w' x hw' hx
   obtain ⟨c, _, hmc⟩ := mapList_mem M caps caps' hl c' hc'
-  cases hp : ptr? c with
+  obtain ⟨w, _, hmw⟩ := iso_onto iso hmc w' hw'
+  cases hp : ptr? w with
   | none =>
-    simp only [mapVal?, hp, Option.some.injEq] at hmc
-    rw [← hmc, hp] at hx; cases hx
+    simp only [mapVal?, hp, Option.some.injEq] at hmw
+    rw [← hmw, hp] at hx; cases hx
   | some a =>
-    simp only [mapVal?, hp] at hmc
-    obtain ⟨a', e1, e2, e3, _⟩ := p.fresh a c' hmc rfl
+    simp only [mapVal?, hp] at hmw
+    obtain ⟨a', e1, e2, e3, _⟩ := p.fresh a w' hmw rfl
     rw [hx] at e1; cases e1
     exact ⟨lookup_none_of_ge H x (by rw [e2]; exact e3), e2⟩
 
